@@ -611,9 +611,17 @@ func bodyC16(c c16Case, x *vkit.Ctx) {
 		final[d] = d.view()
 	}
 	due := func(d *c16Node) (string, bool) {
+		// every member with status changes OR received events (a member that
+		// joined and was erased inside one concurrent pair was never observed,
+		// yet its events arrive)
 		var names []string
 		for m := range d.exp {
 			names = append(names, m)
+		}
+		for m := range d.got {
+			if _, ok := d.exp[m]; !ok {
+				names = append(names, m)
+			}
 		}
 		sort.Strings(names)
 		for _, m := range names {
